@@ -32,7 +32,18 @@ INFO = dict(
               "manager with an invariant over histories of calls) + tables regenerated from the live code on every run "
               "with `decide +kernel` obligations (33 labeller tables, 33 resolution rows: what each labeller does per "
               "input kind and per `return_mapping`, two ast scans: set-iteration sites, what each labelling function does "
-              "with its argument) + model/implementation correspondence, an independent property oracle, and a battery "
+              "with its argument) + SOURCE-TEXT TRANSLATION on every run (harness/trans_c15.py over harness/py2lean2.py): "
+              "menpo/shape/labelled.py (labels, _verify_all_labels_masked, __init__, copy, _new_group_with_only_labels, "
+              "with_labels, without_labels, get_label, add_label, remove_label, indices_to_masks, "
+              "init_from_indices_mapping, init_with_all_label), PointUndirectedGraph.from_mask, "
+              "menpo/landmark/labels/base.py (validate_input, connectivity_from_array, connectivity_from_range, "
+              "pcloud_and_lgroup_from_ranges, labeller_func's wrapper) and the bodies of all 33 index-based labelling "
+              "functions (faces, eyes, hands, poses, cars, tongue) are rewritten from the source text of the current tree "
+              "into Lean (Generated/C15Src.lean, Generated/C15SrcLab.lean) and proved equal to the Core definitions for all "
+              "arguments (GenProps/C15Src.lean: unfold + case split + simp_all, loops through a fold lemma; per labeller "
+              "GenProps/C15SrcLab*.lean: commutes with every map of the points and refuses other sizes by unfolding, equals "
+              "the PROBED table on the index-encoding probe by `decide +kernel`, hence on every input) "
+              "+ model/implementation correspondence, an independent property oracle, and a battery "
               "re-run in separate interpreter processes with different PYTHONHASHSEED",
     level_text="Theorems over an executable model of LabelledPointUndirectedGraph (with_labels, without_labels — both with "
                "the str-or-list argument —, get_label, add_label, remove_label, the constructor's coverage check, "
@@ -55,22 +66,40 @@ INFO = dict(
                "table on every input (label masks, points under each label, connectivity through the index list); the "
                "wrapper treats arrays, point clouds, labelled graphs and manager groups alike; `labeller()` leaves the "
                "source group and every other group untouched, writes exactly the key `group_label`, raises exactly for a "
-               "missing group / an ambiguous None / a wrong size, over every history of calls.  Tied to /repo by the "
+               "missing group / an ambiguous None / a wrong size, over every history of calls.  TRANSLATED rather than "
+               "transcribed (re-translated from the source text on every run, equality with the Core definition proved for "
+               "all arguments): every method of LabelledPointUndirectedGraph named above, its constructors, indices_to_masks "
+               "(a for loop with an early exit), from_mask, validate_input, the connectivity helpers, "
+               "pcloud_and_lgroup_from_ranges, labeller_func's wrapper — so `select_iff`, `run_invariant` (restated over "
+               "every sequence of TRANSLATED operations: `runSrc_invariant`), `src_with_labels_exact`, "
+               "`src_without_labels_exact`, `src_without_labels_str` are theorems about what the source says now — and the "
+               "body of each of the 33 labelling functions: `src_<name>` says that on EVERY input the translated source "
+               "returns the class, points, connectivity, label masks and mapping of the table probed from the live function "
+               "(two independent extractions, source text and execution, agree), and refuses every other size.  Tied to "
+               "/repo by the "
                "regenerated tables and scans and by running random operation sequences, every labeller (arrays of several "
                "dtypes and layouts / point clouds and subclasses / labelled graphs, right and wrong sizes) and random "
                "`labeller()` histories through the real code and the Lean driver; an oracle independent of the model "
                "decides the property on the real code, across interpreter processes with different hash seeds for the "
                "run-to-run clause.",
     level_note="Trusted: Lean kernel; axioms propext/Classical.choice/Quot.sound; harness/extract_c15.py (probing), "
-               "harness/scan_c15.py (ast classification of uses), the Python harness and oracle, the driver's parser.  "
+               "harness/scan_c15.py (ast classification of uses), harness/py2lean2.py + harness/trans_c15.py (the "
+               "translator and the C15 vocabulary: which Lean operation of Core/C15Src.lean each numpy / OrderedDict / "
+               "constructor expression stands for; a point cloud argument of a labelling function is the list of its points "
+               "— any other use of it has no translation and breaks the obligation), the Python harness and oracle, the "
+               "driver's parser.  The graph constructor (menpo/shape/graph.py, outside the anchored files) is modelled "
+               "(`puInit`), not translated.  "
                "Modelled, not verified: numpy boolean / integer indexing, scipy sparse row/column selection "
                "(`adjacency[keep,:][:,keep]`), OrderedDict item assignment and pop, `Copyable.copy` of a group stored by "
                "`LandmarkManager.__setitem__` (each exercised by the correspondence; aliasing by identity / digest / "
                "shares_memory checks on the real objects).  CPython's set iteration order is a parameter of the coded "
                "`without_labels` model about which only 'is a permutation' is assumed.  That each labeller *is* `gather` "
-               "with its table for every input is not a theorem about the Python functions: it is tested (random clouds, "
-               "all input kinds) and backed by the regenerated scan obligation that no labelling function can look at a "
-               "coordinate.",
+               "with its table for every input is a theorem about its source text as translated (`src_<name>`, re-proved "
+               "on every run), under the vocabulary above; it is also tested (random clouds, all input kinds) and backed by "
+               "the regenerated scan obligation that no labelling function can look at a coordinate.  Side finding of the "
+               "translation (outside the property text, `initFromIndicesC_two_edges_refused`): init_from_indices_mapping "
+               "reads an edge array of exactly two edges as a 2 x 2 adjacency matrix and refuses it unless there are two "
+               "points (notes/fixes/C15-5-init-from-indices-two-edges.diff).",
     rule="a case = one operation applied to one labelled graph (1..9 points, 1..6 overlapping labels incl. empty and "
          "identical masks, masks as bool / int / uint8 arrays or lists, any edge set incl. self loops and none, label names "
          "incl. the empty string, unicode and names that are substrings of one another) reached by a random operation "
@@ -82,13 +111,6 @@ INFO = dict(
              "theorems `relabel_source_untouched` / `relabelMany_invariant` say which keys of the manager keep their "
              "value); on the real objects it is checked by digests and object identity of the receiver / of every group "
              "before and after every call, and by `shares_memory` between the stored group and its source",
-             "that a labeller equals `gather` with its regenerated table on *every* input is proved for the model "
-             "(`live_labellers_masks`) and, for the Python functions, tested by the correspondence (random clouds of both "
-             "dimensions, several dtypes and layouts, arrays / point clouds / subclasses / labelled graphs / manager "
-             "groups) and backed by the regenerated obligation `labScan_ok` (ast scan: every labelling function uses its "
-             "argument only through validate_input, `.points[<constant index>]`, `.points` handed whole to a constructor, "
-             "`.n_points`, or delegation to another scanned function, and validates exactly the size of its table) — not "
-             "proved about the Python code",
              "run-to-run identity is a theorem for the model (the operations are functions, and `run_rename`: their "
              "results do not depend on hashes or on how names compare); for the real interpreter it is observed over 3 "
              "(quick) / 8 (thorough) hash seeds and backed by the regenerated obligation `orderSites_ok` (ast scan: the "
@@ -148,6 +170,17 @@ THEOREMS = [
     "MenpoModel.C15.call_kind_independent", "MenpoModel.C15.call_spec", "MenpoModel.C15.relabel_spec",
     "MenpoModel.C15.relabel_source_untouched", "MenpoModel.C15.relabel_same_key", "MenpoModel.C15.relabel_error_iff",
     "MenpoModel.C15.relabel_wf", "MenpoModel.C15.relabelMany_invariant",
+    # the code-shaped definitions (vocabulary of the source-text translation) are the Core definitions (Props/C15Src.lean)
+    "MenpoModel.C15.Src.verifyCovered_eq", "MenpoModel.C15.Src.fromMaskC_eq", "MenpoModel.C15.Src.constructC_eq",
+    "MenpoModel.C15.Src.zip_fun", "MenpoModel.C15.Src.ofPairs_nodup", "MenpoModel.C15.Src.selectC_eq",
+    "MenpoModel.C15.Src.withLabelsC_eq", "MenpoModel.C15.Src.withoutLabelsC_eq", "MenpoModel.C15.Src.getLabelC_eq",
+    "MenpoModel.C15.Src.addLabelC_eq", "MenpoModel.C15.Src.removeLabelC_eq", "MenpoModel.C15.Src.indicesToMasksC_eq",
+    "MenpoModel.C15.Src.initFromIndicesC_eq", "MenpoModel.C15.Src.initFromIndicesC_two_edges_refused",
+    "MenpoModel.C15.Src.initWithAllLabelC_eq",
+    # from the source text of a labelling function to its behaviour on every input (Props/C15SrcLab.lean)
+    "MenpoModel.C15.Src.takePts_map", "MenpoModel.C15.Src.constructC_map", "MenpoModel.C15.Src.initFromIndicesC_map",
+    "MenpoModel.C15.Src.fromRangesC_map", "MenpoModel.C15.Src.expectedObj_map", "MenpoModel.C15.Src.lab_from_probe",
+    "MenpoModel.C15.Src.labAgrees_spec", "MenpoModel.C15.Src.src_labeller_clause",
 ]
 
 NAMES = ["jaw", "left_eye", "right_eye", "nose", "mouth", "left_eyebrow", "right_eyebrow", "chin", "all", "upper",
@@ -1390,8 +1423,25 @@ def generated(ctx):
     files = extract_c15.lean_files(idx, bbox, res, sites, scan, guard)
     ctx.notes["validate_input_guard"] = guard
     names = extract_c15.obligation_names(idx)
-    ok = common.build_generated(ctx, files, extract_c15.TARGETS, len(names))
-    ctx.count("labeller-tables:" + ("ok" if ok else "BROKEN"))
+    # the source-text tie (harness/trans_c15.py): labelled.py, from_mask, base.py and every labelling function are
+    # TRANSLATED from the source text of the current tree into Generated/C15Src*.lean; the obligations of
+    # GenProps/C15Src*.lean (translated = Core definition for all arguments; per labeller: commutes with maps, refuses other
+    # sizes, agrees with the probed table on the probe, hence on every input) are re-built in the same `lake build`
+    from . import trans_c15
+    sfiles, snames, reasons = trans_c15.generated_files(idx)
+    files.update(sfiles)
+    ok = common.build_generated(ctx, files, extract_c15.TARGETS + trans_c15.all_targets(), len(names) + len(snames))
+    if reasons and ok:
+        # cannot happen (a stub never satisfies its obligation); kept so that an untranslatable source can never pass
+        ctx.broken_obligations.append({"targets": trans_c15.all_targets(), "errors": [], "output_tail": ""})
+        ok = False
+    if reasons:
+        ctx.notes["untranslatable"] = reasons
+        ctx.broken_obligations[-1].setdefault("errors", []).extend("untranslatable: " + r for r in reasons)
+    names = names + snames
+    ctx.count("labeller-tables+source-translation:" + ("ok" if ok else "BROKEN"))
+    ctx.notes["translated_from_source"] = dict(trans_c15.TRANSLATED, labellers=len(idx))
+    ctx.notes["source_translation_obligations"] = len(snames)
     ctx.notes["resolution_rows"] = sum(len(r["rows"]) for r in res)
     ctx.notes["set_sites"] = [list(x[:3]) + [x[3]] for x in sites]
     ctx.notes["order_observing_sites"] = [list(x) for x in scan_c15.order_sites(sites)]
@@ -1483,7 +1533,8 @@ def search(ctx):
 
 def run(ctx):
     idx, gen_names = generated(ctx)
-    imports = IMPORTS + (["MenpoModel.GenProps.C15"] if gen_names else [])
+    imports = IMPORTS + (["MenpoModel.GenProps.C15"] if any(".GenProps.wf_" in n for n in gen_names) else []) + \
+        (["MenpoModel.GenProps.C15SrcLab"] if any(".GenProps.Src." in n for n in gen_names) else [])
     common.prepare_lean(ctx, PROP, imports, THEOREMS + gen_names)
     gen_ax = {}
     for n in gen_names:          # counted once, as generated obligations
